@@ -553,6 +553,8 @@ void UnicodePrinter::bvisit(const Constant &x)
         box_ = StringBox(U8("\U0001D43A"), 1);
     } else if (eq(x, *GoldenRatio)) {
         box_ = StringBox(U8("\U0001D719"), 1);
+    } else {
+        box_ = StringBox(x.get_name());
     }
 }
 
